@@ -226,7 +226,12 @@ def Label.isEnv : Label → Bool
 def ctxCancelled (s : St) : Bool :=
   if s.seq then s.callerCancelled else s.dCause.isSome
 
-def allDone (ws : List Pc) : Bool := ws.all (· == .done)
+/-- the wrapper's `out[i] = f(in[i])` (Map) / `out[i], err = f(ctx, in[i])` (MapContext) -/
+def writeOut (out : List (Option Nat)) (i : Nat) : Res → List (Option Nat)
+  | .ok v => out.set i (some v)
+  | .err _ => out
+
+def allDone (ws : List Pc) : Bool := ws.all (fun pc => match pc with | .done => true | _ => false)
 
 def step (cfg : Cfg) (s : St) : Label → Option St
   | .fetch w =>
@@ -259,9 +264,7 @@ def step (cfg : Cfg) (s : St) : Label → Option St
     | some (.inF i) =>
       if r.isErr && !cfg.code.ctxMode then none else
       let ended := s.ended ++ [(i, r)]
-      let out := match r with
-        | .ok v => s.out.set i (some v)
-        | .err _ => s.out
+      let out := writeOut s.out i r
       if s.seq then
         match r with
         | .err k =>
